@@ -190,6 +190,24 @@ func ParseCopySourceRange(size int64, acceptRange string) (int64, int64, error) 
 	return startOffset, endOffset - startOffset + 1, nil
 }
 
+// HasDotSegment reports whether any "/"-separated segment of name is "." or
+// "..". Such names are not opaque to a file system: it would resolve them to
+// a different location.
+func HasDotSegment(name string) bool {
+	for _, seg := range strings.Split(name, "/") {
+		if seg == "." || seg == ".." {
+			return true
+		}
+	}
+	return false
+}
+
+// IsPathComponent reports whether s can be used as a single path element:
+// it contains no separator and is neither "." nor "..".
+func IsPathComponent(s string) bool {
+	return s != "." && s != ".." && !strings.Contains(s, "/")
+}
+
 // ParseCopySource parses x-amz-copy-source header and returns source bucket,
 // source object, versionId, error respectively
 func ParseCopySource(copySourceHeader string) (string, string, string, error) {
@@ -208,6 +226,9 @@ func ParseCopySource(copySourceHeader string) (string, string, string, error) {
 
 	srcBucket, srcObject, ok := strings.Cut(copySource, "/")
 	if !ok {
+		return "", "", "", s3err.GetAPIError(s3err.ErrInvalidCopySource)
+	}
+	if HasDotSegment(copySource) || !IsPathComponent(versionId) {
 		return "", "", "", s3err.GetAPIError(s3err.ErrInvalidCopySource)
 	}
 
